@@ -4,7 +4,7 @@
   in the books of the chain (zero-value outputs dropped), each shown with its unspent credit.
 -/
 import MW.Lemmas.LedgerConnect
-import MW.Props.C01
+import MW.Lemmas.LedgerConfs
 namespace MW.Lemmas.Ledger
 open MW MW.Model.Ledger MW.Spec.Chain MW.Spec.Books
 
